@@ -34,6 +34,9 @@ func (r *Rescue) Evaluation(
 		}
 
 		if nextT.IsNewLineIdentifier() {
+			// the line end belongs to the statement loop, which ends the
+			// expression there
+			p.Unget()
 			break
 		}
 
